@@ -164,6 +164,10 @@ pub mod placement;
 /// Auto-upgrade system for cross-platform binary updates
 pub mod upgrade;
 
+/// Verification hooks (off by default)
+#[cfg(feature = "verif-hooks")]
+pub mod verif_hooks;
+
 // Re-export main types
 pub use address::{AddressBook, NetworkAddress};
 pub use identity::FourWordAddress;
